@@ -64,7 +64,7 @@ def execute(dev):
         # (a) source shapes placed in font space
         adv = font["hmtx"][name][0]
         M, _ = common.glyph_reference(g, cfg, adv)
-        slack_src = tol + 1.5 * scale
+        slack_src = tol + max(1.5, 0.75 * common.unit_tol(cfg)) * scale  # the compiled curve may differ from the source curve by the cu2qu error
         for leaf in g.leaves():
             b = paths.bounds(paths.polyline(leaf.path, M))
             pr = max(cb[0] - b[0], cb[1] - b[1], b[2] - cb[2], b[3] - cb[3])
